@@ -112,7 +112,7 @@ package evaluator
 //@   ensures  err == nil ==> ncalls == len(keys) + 1
 //@   assigns  EC
 //@   loop 1 invariant fresh(pairMap) && pairMap != nil && ncalls == rangeindex + 2 && (forall i int :: {keys[i]} 0 <= i && i < len(keys) ==> has(kwargs, keys[i]))
-//@   loop 1 invariant forall k int :: {arg1(k)} 1 <= k && k < ncalls ==> called(k, evaluator.Eval) && arg1(k) == kwargs[keys[k - 1]] && arg2(k) == env && !isT(result(k), *object.PanErr)
+//@   loop 1 invariant forall k int :: {arg1(k)} {result(k)} 1 <= k && k < ncalls ==> called(k, evaluator.Eval) && arg1(k) == kwargs[keys[k - 1]] && arg2(k) == env && !isT(result(k), *object.PanErr)
 //@   loop 1 step forall h uint64 :: {pairMap[h]} prev(has(pairMap, h)) ==> has(pairMap, h) && pairMap[h] == prev(pairMap[h])
 // the key list: every key of the table, ordered by source position (line, column) - the sort itself is the
 // library's (trusted summary: a permutation ordered by the given less function)
@@ -795,7 +795,12 @@ package evaluator
 // "...#{e1}...#{e2}...": the embedded expressions are evaluated once each from the first written to the last (the
 // syntax tree links the pieces from the last to the first, so the chain is collected first), each followed by its
 // .S call; the first error ends the evaluation
+// formerAt(node, k): the piece k links away from the end of the string (0 = the last written piece)
+//@ spec fun formerAt(node *ast.EmbeddedStr, k int) *ast.FormerStrPiece
+//@ axiom formerAt_zero: forall node *ast.EmbeddedStr :: {formerAt(node, 0)} formerAt(node, 0) == node.Former
+//@ axiom formerAt_succ: forall node *ast.EmbeddedStr, k int :: {formerAt(node, k).Former} k >= 0 && formerAt(node, k) != nil ==> formerAt(node, k + 1) == formerAt(node, k).Former
 //@ func evaluator.evalEmbeddedStr(node, env) res
+//@   uses     formerAt_zero, formerAt_succ
 //@   requires node != nil && env != nil
 //@   also     C07
 //@   ensures  isVal(res)
@@ -803,9 +808,8 @@ package evaluator
 // loop 1 collects the chain node.Former, .Former.Former, ... (last written piece first); loop 2 walks it backwards,
 // i.e. from the first written piece to the last: the j-th evaluation (j = 0, 1, ...) is of pieces[len-1-j]
 //@   loop 1 invariant fresh(pieces) && ncalls == 0 && (forall i int :: {pieces[i]} 0 <= i && i < len(pieces) ==> pieces[i] != nil)
-//@   loop 1 invariant len(pieces) == 0 ==> n == node.Former
-//@   loop 1 invariant len(pieces) > 0 ==> pieces[0] == node.Former && pieces[len(pieces) - 1].Former == n
-//@   loop 1 invariant forall i int :: {pieces[i]} 0 < i && i < len(pieces) ==> pieces[i - 1].Former == pieces[i]
+//@   loop 1 invariant n == formerAt(node, len(pieces))
+//@   loop 1 invariant forall i int :: {pieces[i]} 0 <= i && i < len(pieces) ==> pieces[i] == formerAt(node, i)
 //@   loop 2 invariant 0 - 1 <= i && i < len(pieces) && ncalls == 2 * (len(pieces) - 1 - i)
 //@   loop 2 invariant forall j int :: {called(2 * j, evaluator.Eval)} 0 <= j && j < len(pieces) - 1 - i ==> called(2 * j, evaluator.Eval) && arg1(2 * j) == pieces[len(pieces) - 1 - j].Expr && arg2(2 * j) == env && !isT(result(2 * j), *object.PanErr) && called(2 * j + 1, evaluator.builtInCallProp)
-//@   loop 2 invariant forall k int :: {pieces[k]} 0 <= k && k < len(pieces) ==> pieces[k] != nil
+//@   loop 2 invariant forall k int :: {pieces[k]} 0 <= k && k < len(pieces) ==> pieces[k] != nil && pieces[k] == formerAt(node, k)
